@@ -105,6 +105,24 @@ def check(run):
         p = [[(run.rng.choice(KINDS + ["Range"]), run.rng.choice([1, 2, 3])) for _ in range(run.rng.randint(1, 3))] for _ in range(4)]
         rnd.append(program([(run.rng.choice(KINDS), run.rng.choice([1, 2, 3])) for _ in range(run.rng.randint(0, 4))], p,
                            "random", n=20 if q else 50, seed=run.seed * 77 + i, fine=0, keys=[1, 2, 3]))
+    # one goroutine, a large map: g expunged entries in the read map and f keys that live in the dirty map only, deleted one by one
+    # with the remaining ones loaded after each deletion (size-dependent shortcuts; every relation between the two counts)
+    bigp = []
+    for N in ((70,) if q else (64, 70, 130)):
+        for g in (1, 2, 3):
+            for f in (g, g + 1, g + 3):
+                ks = list(range(1, N + f + 1))
+                h = [("Store", k) for k in ks[:N]] + [("Range", 1)] + [("Delete", k) for k in ks[:g]]
+                fresh = ks[N:N + f]
+                h += [("Store" if i % 2 else "LoadOrStore", k) for i, k in enumerate(fresh)]
+                for i, k in enumerate(fresh):
+                    h += [("LoadAndDelete" if i % 2 else "Delete", k)] + [("Load", x) for x in fresh[i:]] + [("Load", ks[g]), ("Load", ks[0])]
+                    if i == f - g:
+                        h += [("Delete", fresh[-1]), ("LoadOrStore", fresh[-1]), ("Range", 1)]
+                bigp.append(program(h, [], "schedule", keys=ks))
+    hb, _ = run_programs(run, "syncmap", bigp)
+    bsegs, bsrcs = history_segments(hb)
+    validate(run, "syncmap", "MapAbsTrace", dict(NK=140, NT=8), bsegs, [], plans=replay_plans(bsrcs), label="large maps")
     h2, f2 = run_programs(run, "syncmap", conc)
     h3, f3 = run_programs(run, "syncmap", rnd)
     allh = hists + h2 + h3
